@@ -1,14 +1,36 @@
 (* C10 -- Removal is complete and precise, and existence reports tell the truth.
-   Statements only; proofs in Proofs/RemovalProofs.v, Proofs/RemovalProofs2.v; model in Model/Removal.v. *)
+   Statements only; proofs in Proofs/RemovalProofs.v, RemovalProofs2.v, RemovalProofs3.v; model in Model/Removal.v. *)
 From Coq Require Import NArith List Bool.
-From V Require Import Model.Removal Proofs.RemovalProofs Proofs.RemovalProofs2.
+From V Require Import Model.Removal Proofs.RemovalProofs Proofs.RemovalProofs2 Proofs.RemovalProofs3.
 Import ListNotations.
 Open Scope N_scope.
 
-(* A refused operation returns the state it was given (every operation, every argument, every state). *)
-Theorem refused_unchanged : forall s o s' e, step s o = (s', Err e) -> s' = s.
+(* A refused operation returns the state it was given: every operation, every argument, every state that satisfies the
+   datastore-bridge invariant `wf` (below), hence every state reached by a history whose steps are safe. *)
+Theorem refused_unchanged : forall s o s' e, wf s -> step s o = (s', Err e) -> s' = s.
 Proof. exact refused_unchanged_l. Qed.
 Print Assumptions refused_unchanged.
+
+Theorem refused_unchanged_all_histories : forall h o s' e, hist_safe init h = true -> step (run_hist h) o = (s', Err e) -> s' = run_hist h.
+Proof. intros h o s' e S H. apply (refused_unchanged_l _ o s' e); [apply wf_reachable; exact S | exact H]. Qed.
+Print Assumptions refused_unchanged_all_histories.
+
+(* Without the invariant exactly one refusal changes something: a put of a dataset that has a location row but no records. *)
+Theorem refused_unchanged_unless_recordless_put : forall s o s' e, put_on_recordless s o = false -> step s o = (s', Err e) -> s' = s.
+Proof. exact refused_unchanged_raw. Qed.
+Print Assumptions refused_unchanged_unless_recordless_put.
+
+(* REFUTED without the invariant: on the victim of the stale-trash-row defect (location row, records deleted, artifact still on
+   disk) a put of the same dataset is refused (the location row collides) AFTER the artifact was rewritten, and the rollback
+   deletes the artifact: a refused operation changed the datastore root.  Replayed on the implementation: part of the known
+   finding K-C10-stale-trash-row. *)
+Theorem refused_put_deletes_artifact_refuted : exists h d r k s',
+  step (run_hist h) (Put d r k) = (s', Err Conflict) /\ In (r, k) (files (run_hist h)) /\ ~ In (r, k) (files s') /\ hist_safe init h = false.
+Proof.
+  exists (stale_trash_history ++ [Prune [1] false true false []]), 0, 0, 0.
+  eexists. split; [vm_compute; reflexivity | split; [vm_compute; left; reflexivity | split; [vm_compute; intros [] | vm_compute; reflexivity]]].
+Qed.
+Print Assumptions refused_put_deletes_artifact_refuted.
 
 (* The three existence flags are exactly the three facts: RECORDED <-> a dataset row, DATASTORE <-> a records row,
    _ARTIFACT <-> the file the records name is present; stored() is the third flag; getDatasetLocations <-> a location row. *)
@@ -91,15 +113,99 @@ Theorem disassociate_only : forall s l tg s', step s (Prune l true false false t
 Proof. exact disassociate_only_l. Qed.
 Print Assumptions disassociate_only.
 
-(* REMOVE RUNS (partial: completeness and registry precision; the per-dataset frame of the datastore half is the same
-   emptyTrash argument as for purge and is covered by the correspondence and the oracle, not proved here): the runs no
-   longer exist, the surviving dataset rows are exactly old rows of other runs, no dataset of a removed run is located. *)
-Theorem removeRuns_exact_partial : forall s rs u s', step s (RemoveRuns rs u) = (s', Ok) ->
+(* REMOVE RUNS IS EXACT (any number of runs in one call): the runs no longer exist, every other collection keeps its type, chain
+   definitions are untouched; every dataset of a removed run is gone from the dataset table, every TAGGED / CALIBRATION collection,
+   the location table, the records table and is not reported stored; for every other dataset everything the interfaces report is
+   unchanged.  With unstore=True the bridge invariant is needed and datasets pending in the trash are excluded from the frame (as for
+   purge); with unstore=False (forget) neither. *)
+Theorem removeRuns_exact : forall s rs u s', (u = true -> wf s) -> step s (RemoveRuns rs u) = (s', Ok) ->
+  (forall r, In r rs -> ctype s' r = None) /\
+  (forall c, ~ In c rs -> ctype s' c = ctype s c) /\ chains s' = chains s /\
+  (forall d, In d (run_members s rs) -> gone s' d) /\
+  (forall d, ~ In d (run_members s rs) -> (u = true -> ~ In d (trash s)) -> obs s' d = obs s d).
+Proof. exact removeRuns_exact_l. Qed.
+Print Assumptions removeRuns_exact.
+
+Theorem removeRuns_exact_all_histories : forall h rs u s', hist_safe init h = true -> step (run_hist h) (RemoveRuns rs u) = (s', Ok) ->
+  (forall r, In r rs -> ctype s' r = None) /\
+  (forall d, In d (run_members (run_hist h) rs) -> gone s' d) /\
+  (forall d, ~ In d (run_members (run_hist h) rs) -> ~ In d (trash (run_hist h)) -> obs s' d = obs (run_hist h) d).
+Proof.
+  intros h rs u s' S H. destruct (removeRuns_exact_l (run_hist h) rs u s' (fun _ => wf_reachable h S) H) as [A [_ [_ [B C]]]].
+  split; [exact A | split; [exact B |]]. intros d H1 H2. apply C; [exact H1 | intros _; exact H2].
+Qed.
+Print Assumptions removeRuns_exact_all_histories.
+
+(* The registry half of removeRuns needs no invariant at all: surviving dataset rows are old rows of other runs. *)
+Theorem removeRuns_registry_unconditional : forall s rs u s', step s (RemoveRuns rs u) = (s', Ok) ->
   (forall r, In r rs -> ctype s' r = None) /\
   (forall d a, In (d, a) (ds s') -> In (d, a) (ds s) /\ ~ In (fst a) rs) /\
   (forall d a, In (d, a) (ds s) -> In (fst a) rs -> located s' d = false).
 Proof. exact removeRuns_targets_l. Qed.
-Print Assumptions removeRuns_exact_partial.
+Print Assumptions removeRuns_registry_unconditional.
+
+(* The records table never holds two rows for one dataset id, after any history at all (no safety premise). *)
+Theorem one_record_per_dataset_all_histories : forall h, NoDup (map fst (recs (run_hist h))).
+Proof. exact urecs_reachable. Qed.
+Print Assumptions one_record_per_dataset_all_histories.
+
+(* BULK EXISTENCE REPORTS TELL THE TRUTH (code as repaired in /repo 245923d): Butler.stored_many and Butler._exists_many asked about
+   any list of ids in one call report, for every requested id, exactly what Butler.stored / Butler.exists report for it alone --
+   in every state reached by any history, shared artifacts included. *)
+Theorem bulk_existence_agrees : forall h l d, In d l ->
+  stored_many (run_hist h) l d = stored (run_hist h) d /\ exists_many_flags (run_hist h) l d = exists_flags (run_hist h) d.
+Proof.
+  intros h l d H. split; [| apply exists_many_agrees; [apply urecs_reachable | exact H]].
+  rewrite stored_many_agrees by apply urecs_reachable. apply memN_In in H. rewrite H. reflexivity.
+Qed.
+Print Assumptions bulk_existence_agrees.
+
+Theorem bulk_existence_unrequested : forall h l d, ~ In d l -> stored_many (run_hist h) l d = false.
+Proof. intros h l d H. rewrite stored_many_agrees by apply urecs_reachable. apply memN_false in H. rewrite H. reflexivity. Qed.
+Print Assumptions bulk_existence_unrequested.
+
+(* REFUTED WITHOUT THE FIX: with location_map a dict artifact -> ONE dataset id (the code before 245923d) a stored dataset is
+   reported absent by the bulk call as soon as another requested id's record names the same artifact, although the single-ref
+   interface and the repaired bulk interface report it stored, and although it is reported stored when asked about alone. *)
+Theorem bulk_existence_refuted_without_fix : exists h l d, In d l /\
+  stored (run_hist h) d = true /\ stored_many (run_hist h) l d = true /\
+  stored_many_single_map (run_hist h) l d = false /\ stored_many_single_map (run_hist h) [d] d = true.
+Proof.
+  exists shared_artifact_history, [0; 1], 0. destruct single_map_witness as [A [_ [B [_ [_ [C D]]]]]].
+  split; [left; reflexivity | split; [exact A | split; [exact B | split; [exact C | exact D]]]].
+Qed.
+Print Assumptions bulk_existence_refuted_without_fix.
+
+(* CHAINED VIEWS FOLLOW: what a CHAINED collection (nested to any depth `f`) shows about a dataset is a function of what its
+   children show; so a dataset that is gone is in no chain, and a dataset whose observation is unchanged is in the same chains. *)
+Theorem chain_views_follow : forall s s' d, chains s' = chains s -> obs s' d = obs s d ->
+  forall f c, chain_member f s' c d = chain_member f s c d.
+Proof. intros s s' d H1 H2. apply chain_member_frame; [exact H1 | apply member_of_frame; exact H2]. Qed.
+Print Assumptions chain_views_follow.
+
+Theorem gone_from_every_chain : forall s d, gone s d -> forall f c, member_of s c d = false /\ chain_member f s c d = false.
+Proof. intros s d G f c. split; [apply member_of_gone; exact G | apply chain_member_gone; apply member_of_gone; exact G]. Qed.
+Print Assumptions gone_from_every_chain.
+
+Theorem purge_chain_views : forall s l tg s', wf s -> step s (Prune l true true true tg) = (s', Ok) ->
+  (forall d, In d l -> forall f c, chain_member f s' c d = false) /\
+  (forall d, ~ In d l -> ~ In d (trash s) -> forall f c, chain_member f s' c d = chain_member f s c d).
+Proof.
+  intros s l tg s' W H. rewrite purge_ok in H. inversion H. subst s'. split.
+  - intros d Hd f c. apply chain_member_gone. apply member_of_gone. apply purge_targets_gone; assumption.
+  - intros d H1 H2. apply chain_member_frame; [reflexivity | apply member_of_frame; apply purge_frame; assumption].
+Qed.
+Print Assumptions purge_chain_views.
+
+Theorem removeRuns_chain_views : forall s rs u s', (u = true -> wf s) -> step s (RemoveRuns rs u) = (s', Ok) ->
+  (forall d, In d (run_members s rs) -> forall f c, chain_member f s' c d = false) /\
+  (forall d, ~ In d (run_members s rs) -> (u = true -> ~ In d (trash s)) -> forall f c, chain_member f s' c d = chain_member f s c d).
+Proof.
+  intros s rs u s' W H. destruct (removeRuns_exact_l s rs u s' W H) as [_ [_ [C [G F]]]]. split.
+  - intros d Hd f c. apply chain_member_gone. apply member_of_gone. apply G. exact Hd.
+  - intros d H1 H2. apply chain_member_frame; [exact C | apply member_of_frame; apply F; assumption].
+Qed.
+Print Assumptions removeRuns_chain_views.
 
 (* emptyTrash deletes an artifact only if a trashed record names it and no located dataset's record does. *)
 Theorem empty_trash_deletes_only_unreferenced : forall s p, In p (files s) -> ~ In p (files (empty_trash s)) ->
@@ -144,3 +250,17 @@ Example demo_disassociate : tags (exec (run_hist demo) (Prune [0] true false fal
 Example demo_removeRuns : let s' := exec (run_hist demo) (RemoveRuns [0] true) in
   ds s' = [(2, (1, 0))] /\ ctype s' 0 = None /\ tags s' = [].
 Proof. vm_compute. repeat split; reflexivity. Qed.
+(* two runs in one call, a bystander in a third run tagged, certified and seen through a nested chain *)
+Definition demo2 : list op :=
+  [RegColl 0 Run; RegColl 1 Run; RegColl 6 Run; RegColl 2 Tagged; RegColl 4 Calib; RegColl 5 Chain; RegColl 7 Chain;
+   Put 0 0 0; Put 1 1 1; Put 2 6 2; Tag 2 [0; 2]; Certify 4 2 0 5; SetChain 7 [2; 4]; SetChain 5 [7]].
+Example demo2_safe : hist_safe init demo2 = true. Proof. vm_compute. reflexivity. Qed.
+Example demo2_removeRuns : let s := run_hist demo2 in let s' := exec s (RemoveRuns [0; 1] true) in
+  snd (step s (RemoveRuns [0; 1] true)) = Ok /\ run_members s [0; 1] = [1; 0] /\
+  chain_member 3 s 5 0 = true /\ chain_member 3 s' 5 0 = false /\ chain_member 3 s' 5 2 = true /\
+  exists_flags s' 0 = (false, false, false) /\ exists_flags s' 2 = (true, true, true) /\ obs s' 2 = obs s 2 /\
+  snd (step s (SetChain 7 [5])) = Err Cycle /\ snd (step s (RemoveRuns [6; 6] true)) = Err MissingColl.
+Proof. vm_compute. repeat split; reflexivity. Qed.
+Example demo_bulk : let s := run_hist shared_artifact_history in
+  exists_many_flags s [0; 1] 0 = (false, true, true) /\ exists_many_flags s [0; 1] 1 = (true, true, true) /\ In 0 (trash s).
+Proof. vm_compute. repeat split; try reflexivity. left. reflexivity. Qed.
